@@ -190,9 +190,17 @@ def gen_prim_term(rng, solver, clock=True, interrupt=True):
     else: kw = {}
     return {'t': t, 'kw': kw}
 
-def gen_term_tree(rng, solver, depth=3, clock=True, interrupt=True):
+def gen_term_tree(rng, solver, depth=3, clock=True, interrupt=True, _count=None, top=True):
+    """And/Or/When tree; with small probability a member is a reference to a node built
+    earlier in the same tree (the same condition object listed twice)"""
+    if _count is None: _count = [0]
+    if not top and _count[0] > 0 and rng.random() < 0.15:
+        return {'t': 'ref', 'i': rng.randrange(_count[0])}
     if depth <= 0 or rng.random() < 0.45:
+        _count[0] += 1
         return gen_prim_term(rng, solver, clock, interrupt)
-    t = rng.choice(['And', 'Or', 'Or', 'When'])
+    t = rng.choice(['And', 'Or', 'Or', 'When', 'And'])
     n = 1 if t == 'When' else rng.choice([1, 2, 2, 3])
-    return {'t': t, 'of': [gen_term_tree(rng, solver, depth - 1, clock, interrupt) for _ in range(n)]}
+    kids = [gen_term_tree(rng, solver, depth - 1, clock, interrupt, _count, False) for _ in range(n)]
+    _count[0] += 1
+    return {'t': t, 'of': kids}
